@@ -255,7 +255,7 @@ def explain_many(items, fixbits):
                 for sb in (2, 4, 8):
                     if b & sb:
                         h = heuristic_class(sb, res[b], res[0], js)
-                        if h is not None and not (fixbits >> FIX_CLASS.index(h)) & 1:
+                        if h is not None and (h not in FIX_CLASS or not (fixbits >> FIX_CLASS.index(h)) & 1):
                             cl.add(h)
                             break
             if not cl:
